@@ -36,7 +36,11 @@ func VerifC14_InjectedRuntimeRegistry() {
 	_, err := database.Register(&database.Database{Name: "rtdb", Description: "t", StorageType: "injected"})
 	rt.Assert(err == nil, "registry/register-database")
 	reg := NewRegistry()
-	rt.Assert(reg.InjectAsDatabase("rtdb") == nil, "registry/inject")
+	// providers register before or after the registry is injected
+	injectFirst := rt.Bool("inject-before-providers-register")
+	if injectFirst {
+		rt.Assert(reg.InjectAsDatabase("rtdb") == nil, "registry/inject")
+	}
 	sets := 0
 	push, err := reg.Register("a/", SimpleValueSetterFunc(func(r record.Record) (record.Record, error) {
 		sets++
@@ -45,6 +49,9 @@ func VerifC14_InjectedRuntimeRegistry() {
 	rt.Assert(err == nil, "registry/provider-registered")
 	pushOther, err := reg.Register("b/x", SimpleValueSetterFunc(func(r record.Record) (record.Record, error) { return r, nil }))
 	rt.Assert(err == nil, "registry/second-provider-registered")
+	if !injectFirst {
+		rt.Assert(reg.InjectAsDatabase("rtdb") == nil, "registry/inject")
+	}
 	db := database.NewInterface(&database.Options{Local: true, Internal: true})
 	sub, err := db.Subscribe(query.New("rtdb:a/"))
 	rt.Assert(err == nil, "registry/subscribe")
